@@ -5,9 +5,27 @@ import (
 	"strconv"
 
 	"verif/harness/core"
+	"verif/harness/genref"
 )
 
 func Check() *core.Check {
+	// exclusions are in force only while the corresponding finding is listed (see known-findings.d/C09.json)
+	kf := core.LoadFindings()
+	for _, f := range kf.Findings {
+		if f.Property != "C09" {
+			continue
+		}
+		switch f.ID {
+		case "C09-stack-ref-rebase":
+			genref.NoLogicalAssignToLocals = true
+		case "C09-return-iterator-close-throws-state":
+			genref.NoThrowingIteratorClose = true
+		case "C09-property-key-minus":
+			genref.NoDashChunk = true
+		case "C09-nested-return-completions", "C09-throw-out-of-nested-returning-finally":
+			genref.SingleReturnPerInstance = true
+		}
+	}
 	return &core.Check{
 		ID:    "C09",
 		Level: "exploration",
@@ -19,14 +37,17 @@ func Check() *core.Check {
 		Assumptions: []string{
 			"the model is consulted only inside its domain (exact integers < 2^53, ASCII strings, ToPrimitive of primitives / plain objects / arrays only); cases leaving it are judged by the model-free monitors only",
 			"async generators are not supported by goja and are excluded",
-			"async: each group of driver ops is one outermost call; ordering is modelled for the single FIFO job queue drained at the end of the outermost call",
+			"async: each group of driver ops is one outermost call issued from one stack context; ordering is modelled for the single FIFO job queue drained at the end of the outermost call (two concurrent async instances + ticker chains)",
+			"async non-triviality is measured coarsely: a resumption counts as 'at a different depth' when the call was issued from inside a context (resumptions always happen from the job drain)",
+			"while a finding is listed in known-findings.d/C09.json the generator excludes its minimal neighbourhood (flags in genref/gen.go); with no entry listed no exclusion is in force",
+			"a model fuel of 400k interpreter steps bounds every case; goja gets 3M VM instructions per outermost call and exhausting them while the model terminated is a violation",
 		},
 		Cases: func(tier string) int {
 			if v, err := strconv.Atoi(os.Getenv("C09_DEV_CASES")); err == nil && v > 0 {
 				return v // development aid only; registered commands do not set it
 			}
 			if tier == "thorough" {
-				return 600000
+				return 1000000
 			}
 			return 30000
 		},
